@@ -228,7 +228,7 @@ class _Walk(Flow):
             bound = name in self.outer
         else:
             return
-        key = (self.func.qname, st[0] or '-', name)
+        key = (self.func.qname, st[0] if isinstance(st[0], str) else '-', name)
         rec = self.sh.uses.setdefault(key, [True, None, self.func])
         if not bound and rec[0]:
             rec[0] = False
@@ -402,12 +402,12 @@ class _Walk(Flow):
             return (st,), (st,)
         pos, kinds = k
         self.sh.kinds_seen.update(kinds)
-        if st[0] is None:
-            yes, no = [(x, st[1]) for x in kinds], [st]
-        elif st[0] in kinds:
-            yes, no = [st], []
-        else:
-            yes, no = [], [st]
+        if isinstance(st[0], str):
+            yes, no = ([st], []) if st[0] in kinds else ([], [st])
+        else:  # undecided: None or the set of kinds already excluded on this path
+            gone = st[0] or frozenset()
+            yes = [(x, st[1]) for x in kinds if x not in gone]
+            no = [(gone | frozenset(kinds), st[1])]
         return (yes, no) if pos else (no, yes)
 
     def on_for(self, node, st):
@@ -1212,7 +1212,9 @@ class _Carry(Flow):
     def on_call(self, call, st):
         if self.is_source(call):
             self.calls += 1
-            return ((None, st[1]),)  # a fresh verdict: earlier assumptions do not apply to it
+            d = dict(st[1])
+            d['<called>'] = ('const', True)
+            return ((None, frozenset(d.items())),)  # a fresh verdict: earlier assumptions do not apply to it
         r = self.res(call.func)
         if r in ('external:sys.exit', 'external:exit', 'external:quit', 'external:os._exit'):
             self.exits.append((call, st, call.args[0] if call.args else None))
@@ -1430,3 +1432,407 @@ def _main_block(m):
             ):
                 return s
     return None
+
+
+def _called(st):
+    return '<called>' in dict(st[1])
+
+
+def _rule2(ctx, rep):
+    prog = ctx.prog
+    m = prog.module(MOD)
+    sm = prog.module(SUB)
+    with rep.rule(
+        'R-C16-2',
+        'every rule_* function is enumerated and applied to every task; a rule that returns a falsy value or raises makes '
+        '_verify return False and only then; main returns that verdict; the process exit status is non-zero iff it is False; '
+        'verify returns what the spawned check returns; auto_merge_compliant returns FAILED iff it is falsy; automatic runs '
+        'no command on the operational branch (other than checking it out) unless the gate passed',
+        floor=18,
+        breaks='a package that breaks one rule (or makes a rule crash) is reported compliant and its changeset is rebased onto '
+        'the operational branch; or a compliant package is refused',
+    ) as r:
+        # ---- (a) enumeration of the rules
+        gr = prog.func(MOD + '._get_rules')
+        rep.analysed(gr)
+        rules = sorted(n for n in m.funcs if n.startswith('rule_'))
+        names = None
+        try:
+            names = _enumerated_rules(prog, gr)
+        except _NotUnderstood as e:
+            r.fail(f'{gr.qname}:enumeration', where(gr), f'the way _get_rules enumerates the rules is not understood at `{e}`')
+        r.extra['module_attributes_tested'] = len(_module_attrs(m))
+        for name in rules:
+            r.instance()
+            g = m.funcs[name]
+            rep.analysed(g)
+            if names is not None:
+                r.check(
+                    name in names, f'{MOD}.{name}:enumerated', where(g), 'selected by the predicate of _get_rules over dir(module)',
+                    f'{name} is defined but _get_rules does not yield it: the rule never counts',
+                )
+            a = g.node.args
+            npos = len(a.posonlyargs + a.args)
+            r.check(
+                npos >= 1 and npos - len(a.defaults) <= 1 and all(d is not None for d in a.kw_defaults),
+                f'{MOD}.{name}:signature', where(g), 'callable with the task alone',
+                f'{name} cannot be called with one positional argument: TypeError, every package fails this rule', nontrivial=False,
+            )
+        for name in sorted(set(names or ()) - set(rules)):
+            r.fail(
+                f'{MOD}.{name}:enumerated-not-a-rule', mwhere(m, m.tree),
+                f'_get_rules yields {name!r}, which is not a module-level function: calling it fails and every package is rejected',
+            )
+        # ---- (b) the verdict of _verify
+        vf = prog.func(MOD + '._verify')
+        rep.analysed(vf)
+        r.instance()
+        shape = _verify_shape(prog, vf)
+        if isinstance(shape, str):
+            r.fail(f'{vf.qname}:shape', where(vf), f'_verify is not understood: {shape}')
+        else:
+            tl, rl, rc = shape
+            fl = _Verdict(prog, vf, tl, rl, rc)
+            out = fl.run(vf.node, (0, 0, None, 0, frozenset()))
+            rets = list(fl.returns) + [(None, st, _F) for st in out.normal]
+            r.extra['verdict_states'] = len({st for _, st, _ in rets})
+            r.extra['verdict_steps'] = fl.visited
+            bad_acc, bad_rej, und = [], [], []
+            for node, st, v in rets:
+                txt = norm(node) if node is not None else 'end of function (returns None)'
+                if v == _U:
+                    und.append(txt)
+                elif st[3] and v == _T:
+                    bad_acc.append(txt)
+                elif not st[3] and v == _F:
+                    bad_rej.append(txt)
+            r.check(
+                not bad_acc and not und and bool(rets), f'{vf.qname}:rejects-on-any-failure', where(vf, rc),
+                'with a failing or raising rule for some task every return yields False',
+                f'_verify can return a truthy verdict although a rule returned a falsy value or raised for some task '
+                f'(at {sorted(set(bad_acc))}; undecided returns {sorted(set(und))}): the status of a rule is lost on some path '
+                f'(default status, exception handler, or the way the statuses are combined)',
+            )
+            r.check(
+                not bad_rej and not und and bool(rets), f'{vf.qname}:accepts-when-all-pass', where(vf, rc),
+                'when every rule passes for every task every return yields True',
+                f'_verify returns a falsy verdict although every rule passed for every task (at {sorted(set(bad_rej))})',
+            )
+            escapes = sorted({norm(n) for n, _ in fl.early})
+            r.check(
+                not escapes, f'{vf.qname}:every-task-and-rule', where(vf, tl),
+                'no break/return leaves the loops while everything passed so far',
+                f'the loops over tasks/rules can be left by {escapes} while no failure was seen: the remaining rules never count',
+            )
+        # ---- (c) main returns the verdict
+        mf = prog.func(MOD + '.main')
+        rep.analysed(mf)
+        r.instance()
+        cf = _Carry(prog, m, mf, MOD + '._verify')
+        out = cf.run(mf.node, (None, frozenset()))
+        rets = [(n, st, cf.value(n.value, st)) for n, st in cf.returns] + [(None, st, ('const', None)) for st in out.normal]
+        with_v = [(n, st, v) for n, st, v in rets if _called(st)]
+        bad = sorted({norm(n) if n is not None else 'end of function' for n, _, v in with_v if v != 'V'})
+        r.check(
+            bool(with_v) and not bad and cf.calls > 0, f'{mf.qname}:returns-verdict', where(mf),
+            'every return after the call of _verify returns its value',
+            f'main does not return the value of _verify on every path that computed it ({bad or "no such return"})',
+        )
+        # ---- (d) exit status
+        r.instance()
+        blk = _main_block(m)
+        if blk is None:
+            r.fail(f'{MOD}:__main__', mwhere(m, m.tree), 'no `if __name__ == "__main__"` block: python -m dawgie.tools.compliant exits 0 whatever the verdict')
+        else:
+            ef = _Carry(prog, m, None, MOD + '.main')
+            out = ef.block(blk.body, {(None, frozenset())})
+            events = [(n, st, ef_code) for n, st, ef_code in ef.exits] + [(None, st, None) for st in out.normal]
+            bad, seen = [], 0
+            for n, st, code in events:
+                if not _called(st):
+                    bad.append(('main() not called before ' + (norm(n) if n is not None else 'the end of the block'), '-'))
+                    continue
+                for s2 in _split(st):
+                    seen += 1
+                    cl = ef.exit_class(code, s2) if n is not None else 'zero'
+                    want = 'zero' if s2[0] == 'T' else 'nonzero'
+                    if cl != want:
+                        bad.append((norm(n) if n is not None else 'end of the block (status 0)', s2[0]))
+            r.extra['exit_paths'] = seen
+            r.check(
+                seen > 0 and not bad, f'{MOD}:__main__:exit-status', mwhere(m, blk),
+                'verdict True exits with status 0, verdict False with a non-zero status, on every path',
+                'the exit status of `python -m dawgie.tools.compliant` does not follow the verdict: '
+                + '; '.join(f'{t} reached with verdict {"True" if v == "T" else "False" if v == "F" else v}' for t, v in sorted(set(bad))),
+            )
+        # ---- (e) verify -> spawn, submit._spawn
+        vr = prog.func(MOD + '.verify')
+        rep.analysed(vr)
+        r.instance()
+        spawn = vr.params()[-1] if vr.params() else None
+        rets = [n for n in vr.own_nodes() if isinstance(n, ast.Return)]
+        ok = bool(rets) and spawn == 'spawn'
+        cmd_ok = False
+        for n in rets:
+            v = n.value
+            if not (isinstance(v, ast.Call) and isinstance(v.func, ast.Name) and v.func.id == spawn and len(v.args) == 1):
+                ok = False
+                continue
+            lits = []
+            arg = v.args[0]
+            srcs = [arg] if not isinstance(arg, ast.Name) else [
+                x.value for x in vr.own_nodes() if isinstance(x, ast.Assign) and any(isinstance(t, ast.Name) and t.id == arg.id for t in x.targets)
+            ]
+            for s in srcs:
+                if isinstance(s, (ast.List, ast.Tuple)):
+                    lits = [x.value if isinstance(x, ast.Constant) else None for x in s.elts]
+            cmd_ok = any(a == '-m' and b == MOD for a, b in zip(lits, lits[1:]))
+            ok = ok and cmd_ok
+        r.check(
+            ok, f'{vr.qname}:returns-spawn', where(vr), 'returns spawn([... -m dawgie.tools.compliant ...])',
+            'verify does not return the result of spawning `-m dawgie.tools.compliant` on every path: the verdict of the check is replaced',
+        )
+        sp = prog.func(SUB + '._spawn')
+        rep.analysed(sp)
+        r.instance()
+        rets = [n for n in sp.own_nodes() if isinstance(n, ast.Return)]
+
+        def status_is_zero(e):
+            def proc(x):
+                if isinstance(x, ast.Attribute) and x.attr == 'returncode':
+                    x = x.value
+                return isinstance(x, ast.Call) and prog.resolve_in(x.func, sp) in ('external:subprocess.call', 'external:subprocess.run')
+            if isinstance(e, ast.Compare) and len(e.ops) == 1 and isinstance(e.ops[0], ast.Eq):
+                a, b = e.left, e.comparators[0]
+                return (proc(a) and isinstance(b, ast.Constant) and b.value == 0 and b.value is not False) or (
+                    proc(b) and isinstance(a, ast.Constant) and a.value == 0 and a.value is not False)
+            if isinstance(e, ast.UnaryOp) and isinstance(e.op, ast.Not):
+                return proc(e.operand)
+            return False
+
+        r.check(
+            bool(rets) and all(status_is_zero(n.value) for n in rets), f'{sp.qname}:status-zero-is-true', where(sp),
+            'returns (exit status == 0)', 'the command-line spawn helper does not map exit status 0 to True and any other status to False',
+        )
+        # ---- (f) auto_merge_compliant
+        am = prog.func(SUB + '.auto_merge_compliant')
+        rep.analysed(am)
+        r.instance()
+        gf = _Carry(prog, sm, am, MOD + '.verify')
+        out = gf.run(am.node, (None, frozenset()))
+        evs = [(n, st, gf.value(n.value, st)) for n, st in gf.returns] + [(None, st, ('const', None)) for st in out.normal]
+        bad, nfail = [], 0
+        for n, st, v in evs:
+            txt = norm(n) if n is not None else 'end of function (returns None)'
+            if not _called(st) or st[0] is None:
+                bad.append(f'{txt} is reached without the verdict of verify being tested')
+                continue
+            want = SUB + ('.State.SUCCESS' if st[0] == 'T' else '.State.FAILED')
+            nfail += st[0] == 'F'
+            if v != ('sym', want):
+                bad.append(f'{txt} when verify is {"truthy" if st[0] == "T" else "falsy"}')
+        r.check(
+            not bad and nfail > 0 and gf.calls > 0, f'{am.qname}:failed-iff-falsy', where(am),
+            'returns State.FAILED exactly on the paths where verify(...) is falsy',
+            'auto_merge_compliant does not return State.FAILED exactly when compliant.verify is falsy: ' + ('; '.join(sorted(set(bad))) or 'verify is never consulted'),
+        )
+        # ---- (g) automatic
+        au = prog.func(SUB + '.automatic')
+        rep.analysed(au)
+        if 'ops' not in au.params():
+            raise AnalysisError('tools.submit.automatic no longer has the parameter ops (operational branch)')
+        ops = {'ops'}
+        changed = True
+        while changed:  # names derived from ops
+            changed = False
+            for n in au.own_nodes():
+                if isinstance(n, ast.Assign) and {x.id for x in ast.walk(n.value) if isinstance(x, ast.Name)} & ops:
+                    for t in n.targets:
+                        for x in ast.walk(t):
+                            if isinstance(x, ast.Name) and x.id not in ops:
+                                ops.add(x.id)
+                                changed = True
+        two = set(_enum_members(prog, SUB + '.State')) == {'FAILED', 'SUCCESS'}
+        af = _Auto(prog, au, ops, two)
+        af.run(au.node, ('unchecked', frozenset()))
+        r.extra['automatic_steps'] = af.visited
+        if af.gate_calls == 0:
+            r.instance()
+            r.fail(f'{au.qname}:gate', where(au), 'automatic never calls auto_merge_compliant: nothing gates the operational branch')
+        for _, (call, gates, why) in sorted(af.touch.items(), key=lambda kv: (kv[1][0].lineno, kv[1][0].col_offset)):
+            r.instance()
+            worst = sorted(g for g in gates if g != 'passed')
+            r.check(
+                not worst, f'{au.qname}:{norm(call)}', where(au, call), f'{why}: reached only after the gate returned SUCCESS',
+                f'{norm(call)} ({why}) acts on the operational branch and is reachable with the compliance gate {worst} '
+                f'(not dominated by a test that auto_merge_compliant did not return FAILED)',
+            )
+        if not af.touch:
+            raise AnalysisError('no command acting on the operational branch found in tools.submit.automatic (1 confirmed by reading)')
+
+
+def check(ctx):
+    rep = Report(
+        PID,
+        ctx.tier,
+        ctx.prog,
+        'Decides, from the source of tools/compliant.py and tools/submit.py (plus the routine classes of dawgie/__init__.py): '
+        '(1) by symbolic interpretation of _walk with provenance terms, that every local it uses is bound in the iteration '
+        'of the factory-kind loop that uses it; (3) that for each factory kind the container, routine, reference '
+        '(feedback and inputs), state-vector and value hooks receive the objects of that kind\'s own product; '
+        '(2) by concrete evaluation of the _get_rules predicate over the module\'s attribute names, an oracle-driven '
+        'abstract interpretation of _verify (task fails / rule passes, fails or raises; list of statuses abstracted to '
+        'has-truthy/has-falsy) and value tracking through main, the __main__ block, verify, auto_merge_compliant and '
+        'automatic, that a failing or raising rule always ends in a non-zero exit status / State.FAILED before the '
+        'operational branch is moved, and that an all-passing run ends in status 0 / SUCCESS. '
+        'Not decided: whether each rule_NN accepts/rejects correctly for every package, and whether every accepted '
+        'package can be scheduled.',
+        assumptions=[
+            'the hook parameter names of _walk (ifbot, ifalg, ifsv, ifv, ifanl, ifanz, ifret, ifrec, ifref, ifmom) are its keyword interface',
+            'a module-level function named rule_* is a rule; dir(module) is the module\'s functions, classes, globals and imports',
+            'the spawn callable handed to automatic returns the truth of "exit status == 0" (checked for tools.submit._spawn only)',
+        ],
+    )
+    rep.not_decided = [
+        'correctness of each rule_NN for every generated package (what the rules compute, not their shape)',
+        'that every accepted package with acyclic inputs can be turned into a task graph and scheduled',
+        'behaviour of spawn callables other than tools.submit._spawn (e.g. the asynchronous fe VerifyHandler.spawn_off)',
+    ]
+    sh = _interpret_walk(ctx)
+    _rule1(ctx, rep, sh)
+    _rule2(ctx, rep)
+    _rule3(ctx, rep, sh)
+    return rep
+
+
+_C, _S = 'tools/compliant.py', 'tools/submit.py'
+
+_WALK_LOOP_FIXED = """for e in filter(lambda e: hasattr(mod, e.name), dawgie.Factories):
+        f = getattr(mod, e.name)
+        bot = f(*fargs[e])
+        if e == dawgie.Factories.analysis:
+            ifanl(bot)
+            for a in bot.routines():
+                ifanz(a)
+                for ref in a.feedback():
+                    ifref(ref)
+                for ref in a.traits():
+                    ifref(ref)
+                for sv in a.state_vectors():
+                    ifsv(sv)
+                    for i in sv.items():
+                        ifv(i)
+                    pass
+                pass
+        elif e == dawgie.Factories.task:
+            ifbot(bot)
+            for a in bot.routines():
+                ifalg(a)
+                for ref in a.feedback():
+                    ifref(ref)
+                for ref in a.previous():
+                    ifref(ref)
+                for sv in a.state_vectors():
+                    ifsv(sv)
+                    for i in sv.items():
+                        ifv(i)
+                    pass
+                pass
+        elif e == dawgie.Factories.events:
+            for m in bot:
+                ifmom(m)
+        elif e == dawgie.Factories.regress:
+            ifret(bot)
+            for r in bot.routines():
+                ifrec(r)
+                for ref in r.feedback():
+                    ifref(ref)
+                for ref in r.variables():
+                    ifref(ref)
+                for sv in r.state_vectors():
+                    ifsv(sv)
+                    for i in sv.items():
+                        ifv(i)
+                    pass
+                pass
+        else:
+            print(e)
+        pass
+    return"""
+
+_WALK_LOOP_HELPER = """def visit(product, ifroutine, inputs):
+        for routine in product.routines():
+            ifroutine(routine)
+            for ref in routine.feedback():
+                ifref(ref)
+            for ref in inputs(routine):
+                ifref(ref)
+            for vec in routine.state_vectors():
+                ifsv(vec)
+                for item in vec.items():
+                    ifv(item)
+
+    for kind in filter(lambda e: hasattr(mod, e.name), dawgie.Factories):
+        product = getattr(mod, kind.name)(*fargs[kind])
+        if kind == dawgie.Factories.analysis:
+            ifanl(product)
+            visit(product, ifanz, lambda x: x.traits())
+        elif kind == dawgie.Factories.task:
+            ifbot(product)
+            visit(product, ifalg, lambda x: x.previous())
+        elif kind == dawgie.Factories.regress:
+            ifret(product)
+            visit(product, ifrec, lambda x: x.variables())
+        elif kind == dawgie.Factories.events:
+            for moment in product:
+                ifmom(moment)
+        else:
+            print(kind)
+    return"""
+
+VARIANTS = [
+    # ---- R-C16-1
+    V('regress branch uses the routine of another branch again', 'B', _C, '_walk', 'for ref in r.feedback():', 'for ref in a.feedback():', 'R-C16-1'),
+    V('task branch reads the regression variable', 'B', _C, '_walk', 'for ref in a.previous():', 'for ref in r.previous():', 'R-C16-1'),
+    V('state vector used outside its loop', 'B', _C, '_walk', 'for m in bot: ifmom(m)', 'for m in bot:\n                ifmom(m)\n            ifsv(sv)', 'R-C16-1'),
+    # ---- R-C16-3
+    V('regress branch inspects feedback of a stale routine', 'B', _C, '_walk', 'for ref in r.feedback():', 'for ref in a.feedback():', 'R-C16-3'),
+    V('task branch drops the state-vector hook', 'B', _C, '_walk', 'ifsv(sv)', 'pass', 'R-C16-3', occurrence=1),
+    V('regress branch never visits variables()', 'B', _C, '_walk', 'for ref in r.variables():', 'for ref in r.feedback():', 'R-C16-3'),
+    V('analysis branch applies the value hook to the vector', 'B', _C, '_walk', 'for i in sv.items(): ifv(i)', 'for i in sv.items():\n                        ifv(sv)', 'R-C16-3'),
+    V('task branch walks a product made before the loop', 'B', _C, '_walk', 'ifbot(bot) for a in bot.routines():', 'ifbot(bot)\n            for a in mod.task(*fargs[dawgie.Factories.analysis]).routines():', 'R-C16-3'),
+    V('a rule passes an unknown hook', 'B', _C, 'rule_05', '_walk(task, ifsv=_signal)', '_walk(task, ifstate=_signal)', 'R-C16-3'),
+    # ---- R-C16-2
+    V('status defaults to True', 'B', _C, '_verify', 'status = False', 'status = True', 'R-C16-2'),
+    V('exception handler sets the status to True', 'B', _C, '_verify', "logging.exception('Could not process %s', r)", "logging.exception('Could not process %s', r)\n                status = True", 'R-C16-2'),
+    V('verdict is any() of the statuses', 'B', _C, '_verify', 'if not all(result): passed = False', 'if not any(result):\n            passed = False', 'R-C16-2'),
+    V('one rule is skipped', 'B', _C, '_verify', 'status = False try:', "if r == 'rule_07':\n                continue\n            status = False\n            try:", 'R-C16-2'),
+    V('stops after the first task', 'B', _C, '_verify', 'passed = False pass return passed', 'passed = False\n        break\n    return passed', 'R-C16-2'),
+    V('verdict reset per task', 'B', _C, '_verify', 'if not all(result): passed = False', 'passed = all(result)', 'R-C16-2'),
+    V('prefix filter loses rule_10 and rule_11', 'B', _C, '_get_rules', "k.startswith('rule_')", "k.startswith('rule_0')", 'R-C16-2'),
+    V('a non-callable rule_ attribute', 'B', _C, None, 'def _t(*args, **kwds):', 'rule_count = 11\n\n\ndef _t(*args, **kwds):', 'R-C16-2'),
+    V('main returns True', 'B', _C, 'main', "print('returning', yes) return yes", "print('returning', yes)\n    return True", 'R-C16-2'),
+    V('exit status 0 unconditionally', 'B', _C, None, 'sys.exit(-1)', 'sys.exit(0)', 'R-C16-2'),
+    V('exit status 256 wraps to 0', 'B', _C, None, 'sys.exit(-1)', 'sys.exit(256)', 'R-C16-2'),
+    V('verify ignores the spawn result', 'B', _C, 'verify', 'return spawn(cmd)', 'spawn(cmd)\n    return True', 'R-C16-2'),
+    V('_spawn returns the raw status', 'B', _S, '_spawn', 'return subprocess.call(cmd) == 0', 'return subprocess.call(cmd)', 'R-C16-2'),
+    V('auto_merge_compliant returns SUCCESS when verify is falsy', 'B', _S, 'auto_merge_compliant', 'return State.FAILED', 'return State.SUCCESS', 'R-C16-2'),
+    V('auto_merge_compliant inverted test', 'B', _S, 'auto_merge_compliant', 'if not dawgie.tools.compliant.verify(', 'if dawgie.tools.compliant.verify(', 'R-C16-2'),
+    V('automatic ignores the gate', 'B', _S, 'automatic', 'status = auto_merge_compliant(changeset, repo, spawn) if status == State.FAILED: return status', 'status = auto_merge_compliant(changeset, repo, spawn)', 'R-C16-2'),
+    V('automatic rebases ops before the gate', 'B', _S, 'automatic', 'status = auto_merge_compliant(changeset, repo, spawn)', "git_execute(g, f'git rebase {stable} {ops}')\n        status = auto_merge_compliant(changeset, repo, spawn)", 'R-C16-2'),
+    V('automatic continues on FAILED', 'B', _S, 'automatic', 'status = auto_merge_compliant(changeset, repo, spawn) if status == State.FAILED:', 'status = auto_merge_compliant(changeset, repo, spawn)\n        if status == State.SUCCESS:', 'R-C16-2'),
+    V('finally block resets the ops branch', 'B', _S, 'automatic', "finally: git_execute(g, f'git checkout {ops}')", "finally:\n        git_execute(g, f'git checkout -B {ops}')", 'R-C16-2'),
+    # ---- benign
+    V('walk branches factored into one helper with the accessor as a parameter', 'N', _C, '_walk', _WALK_LOOP_FIXED, _WALK_LOOP_HELPER, None),
+    V('local rename and intermediate list in the analysis branch', 'N', _C, '_walk', 'for sv in a.state_vectors(): ifsv(sv) for i in sv.items(): ifv(i)', 'vectors = list(a.state_vectors())\n                for vec in vectors:\n                    ifsv(vec)\n                    for item in vec.items():\n                        ifv(item)', None),
+    V('task branch visits both reference lists in one loop', 'N', _C, '_walk', 'for ref in a.feedback(): ifref(ref) for ref in a.previous(): ifref(ref)', 'for ref in a.feedback() + a.previous():\n                    ifref(ref)', None, occurrence=0),
+    V('kind tested by name', 'N', _C, '_walk', 'elif e == dawgie.Factories.events:', "elif e.name == 'events':", None),
+    V('verdict accumulated with and', 'N', _C, '_verify', 'if not all(result): passed = False', 'passed = passed and all(result)', None),
+    V('early False return on the first failing task', 'N', _C, '_verify', 'if not all(result): passed = False', 'if not all(result):\n            return False', None),
+    V('handler names Exception and resets the status', 'N', _C, '_verify', "except: # noqa: E722 logging.exception('Could not process %s', r)", "except Exception:  # noqa: E722\n                logging.exception('Could not process %s', r)\n                status = False", None),
+    V('rules listed with a comprehension', 'N', _C, '_get_rules', "yield from filter( lambda k: k.startswith('rule_'), sorted(dir(dawgie.tools.compliant)) )", "yield from [k for k in sorted(dir(dawgie.tools.compliant)) if k[:5] == 'rule_']", None),
+    V('exit status from a conditional expression', 'N', _C, None, 'if PASSED: sys.exit(0) else: sys.exit(-1)', 'sys.exit(0 if PASSED else 1)', None),
+    V('exit status from not PASSED', 'N', _C, None, 'if PASSED: sys.exit(0) else: sys.exit(-1)', 'sys.exit(not PASSED)', None),
+    V('auto_merge_compliant with a local and swapped branches', 'N', _S, 'auto_merge_compliant', 'if not dawgie.tools.compliant.verify(repo, True, False, spawn):', 'ok = dawgie.tools.compliant.verify(repo, True, False, spawn)\n    if ok:\n        return State.SUCCESS\n    else:', None),
+    V('automatic tests for SUCCESS and logs', 'N', _S, 'automatic', 'status = auto_merge_compliant(changeset, repo, spawn) if status == State.FAILED: return status', "status = auto_merge_compliant(changeset, repo, spawn)\n        logging.info('gate for %s: %s', ops, status)\n        if status != State.SUCCESS:\n            return status", None),
+]
